@@ -86,15 +86,25 @@ def check_C13(rep, known):
 
 def check_C09(rep, known):
     life_job(rep, [r'C09\.'], known)
+    scen_job(rep, 'ScenShoot', 'C09', [r'C09\.', r'build', r'varmap'], known)
 
 
 def check_C10(rep, known):
     life_job(rep, [r'C10\.'], known)
+    scen_job(rep, 'ScenShoot', 'C10', [r'C10\.', r'build', r'varmap'], known)
+
+
+def check_C11(rep, known):
+    scen_job(rep, 'ScenShoot', 'C11', [r'C11\.', r'build', r'varmap'], known)
+
+
+def check_C14(rep, known):
+    scen_job(rep, 'ScenShoot', 'C14', [r'C14\.', r'build', r'varmap'], known)
 
 
 def check_C18(rep, known):
     life_job(rep, [r'C18\.', r'C13\.d:outcome@\d+:save'], known)
 
 
-CHECKS = {'C07': check_C07, 'C02': check_C02, 'C06': check_C06, 'C01': check_C01, 'C04': check_C04, 'C05': check_C05, 'C13': check_C13, 'C18': check_C18, 'C09': check_C09, 'C10': check_C10}
+CHECKS = {'C07': check_C07, 'C02': check_C02, 'C06': check_C06, 'C01': check_C01, 'C04': check_C04, 'C05': check_C05, 'C13': check_C13, 'C18': check_C18, 'C09': check_C09, 'C10': check_C10, 'C11': check_C11, 'C14': check_C14}
 ENGINE = {p: ['life', 'replay'] for p in ('C13', 'C18', 'C09', 'C10')}
